@@ -20,7 +20,8 @@
 (*   Kernel     args js, qj, ks; res R[i][kk] = response at xi[ks[kk]] to  *)
 (*                   a unit impulse at q_calc[js[i]] = qj[i];  Z[i] = the  *)
 (*                   response of the same grid with vanishing acceptance   *)
-(*   Single     args k, comps; res vvec = value at point k inside the      *)
+(*                   (Zlo, Zhi: its extremes over all points)              *)
+(*   Single     args k, comps | scale, parts; res vvec = value at point k inside the      *)
 (*                   vector, vsingle = value for [xi_k] alone, c1 = facts  *)
 (*                   about the one-point q_calc                            *)
 (***************************************************************************)
@@ -62,15 +63,20 @@ ApplyConstruct(e) ==
         argsOK == /\ n >= 1 /\ Len(a.lam) = n
                   /\ Positive(a.xi) /\ StrictlyIncreasing(a.xi) /\ Positive(a.lam)
                   /\ a.acc \in {"full", "zero", "mid"}
-                  /\ IF e.level = "dm"
-                     THEN (a.acc = "full" => FEq(sinacc, One)) /\ (a.acc = "zero" => FEq(sinacc, Zero))
-                          /\ (a.acc = "mid" => FLt(Zero, sinacc) /\ FLt(sinacc, One))
-                     ELSE (a.acc = "full" => FLeq(HalfPi, a.zaccept)) /\ (a.acc = "zero" => FEq(a.zaccept, Zero))
-                          /\ a.acc # "mid"
+        \* the acceptance the harness asked for is of the class it says (for "mid" the harness derives
+        \* the angle from the observed grid, so this is checked after the grid itself)
+        accOK == IF e.level = "dm"
+                 THEN (a.acc = "full" => FEq(sinacc, One)) /\ (a.acc = "zero" => FEq(sinacc, Zero))
+                      /\ (a.acc = "mid" => FLt(Zero, sinacc) /\ FLt(sinacc, One))
+                 ELSE (a.acc = "full" => /\ FLeq(HalfPi, a.zaccept)       \* full as an angle and as a q
+                                         /\ \A k \in 1..n : FLeq(One, SinTheta(a.zaccept, a.lam[k])))
+                      /\ (a.acc = "zero" => FEq(a.zaccept, Zero))
+                      /\ a.acc # "mid"
         g == GridBad(r)
     IN  IF ~argsOK THEN Bad(s0, "harness-args", ToString(a.acc))
         ELSE IF r.raised THEN Bad(s0, "construct-raised", r.error)
         ELSE IF g # <<>> THEN Bad(s0, g[1], g[2])
+        ELSE IF ~accOK THEN Bad(s0, "harness-args", ToString(<<a.acc, sinacc>>))
         ELSE IF ~(Len(r.qs) = Len(r.qi) /\ Len(r.qi) >= 2 /\ IntsIncreasing(r.qi)
                   /\ r.qi[1] = 1 /\ r.qi[Len(r.qi)] = r.nq
                   /\ FEq(r.qs[1], r.q_first) /\ FEq(r.qs[Len(r.qs)], r.q_last))
@@ -155,6 +161,9 @@ ApplyKernel(s, e) ==
         zbad(i) == ~(FIsFinite(r.Z[i]) /\ FLt(r.Z[i], Zero))
         pb == FirstBad(ni * nk, bad)
         zb == FirstBad(ni, zbad)
+        \* with vanishing acceptance the value is -G(0) at every spin-echo length
+        sbad(i) == ~(FNear(r.Zlo[i], r.Zhi[i], "1e-13", "0.0") /\ FLeq(r.Zlo[i], r.Z[i]) /\ FLeq(r.Z[i], r.Zhi[i]))
+        sb == FirstBad(ni, sbad)
         \* what the other side of the acceptance test would give
         other(p) == IF Accepted(a.qj[cell(p).i], s.lam[a.ks[cell(p).kk]], s.sinacc)
                     THEN r.Z[cell(p).i]
@@ -164,8 +173,8 @@ ApplyKernel(s, e) ==
     IN  IF r.raised THEN Bad(s, "apply-raised", r.error)
         ELSE IF ~(Len(a.qj) = ni /\ Len(r.Z) = ni /\ Len(r.R) = ni /\ \A i \in 1..ni : Len(r.R[i]) = nk)
              THEN Bad(s, "length", "kernel")
-        ELSE IF ~FLeq(FAbs(r.zspread), FMul("1e-13", FAbs(r.Z[1])))
-             THEN Bad(s, "zero-acceptance-not-constant", ToString(r.zspread))
+        ELSE IF ~(Len(r.Zlo) = ni /\ Len(r.Zhi) = ni) THEN Bad(s, "length", "kernel")
+        ELSE IF sb # 0 THEN Bad(s, "zero-acceptance-not-constant", ToString(<<"q", a.qj[sb], r.Zlo[sb], r.Zhi[sb]>>))
         ELSE IF zb # 0 THEN Bad(s, "weights-positive", ToString(<<"q", a.qj[zb], "response", r.Z[zb]>>))
         ELSE IF pb # 0
              THEN Bad(s, IF isMask(pb) THEN "acceptance-mask" ELSE "kernel-value",
@@ -180,7 +189,7 @@ ApplyKernel(s, e) ==
 ApplySingle(s, e) ==
     LET a == e.args
         r == e.res
-        cs == a.comps
+        cs == CompsOf(a)
         k == a.k
         g == IF r.c1.raised THEN <<"construct-raised", r.c1.error>> ELSE GridBad(r.c1)
         applies == /\ WeakRange(cs, s.qlo, QTop(s.qhi, s.lam[k], s.sinacc))
@@ -211,7 +220,11 @@ TNext ==
     /\ l <= NLines
     /\ LET e == TraceLog[l]
            r == Apply(st, e)
-       IN /\ st' = IF r.bad = <<>> THEN r.st ELSE [tid |-> e.tid, skip |-> TRUE]
+       IN \* a rejected event ends its trace, except a matrix element on the wrong side of the
+          \* acceptance test: the remaining events of that trace are still worth a verdict
+          /\ st' = IF r.bad = <<>> THEN r.st
+                   ELSE IF r.bad[1] = "acceptance-mask" THEN r.st
+                   ELSE [tid |-> e.tid, skip |-> TRUE]
           /\ IF r.bad = <<>>
              THEN (IF r.stat = NoStat THEN TRUE
                    ELSE PrintT(<<"STAT", e.tid, l, r.stat.full, r.stat.zero, r.stat.single,
